@@ -599,6 +599,7 @@ fn reference_t(spec: &GraphSpec, refs: &Arc<dyn Sampler>, op: &Op, trace: bool) 
 }
 
 pub fn run_scenario(sc: &Scenario, opts: &RunOpts) -> RunReport {
+    crate::sampler::arg_layout_reset(sc.sched_seed);
     let mut stats = RunStats::default();
     let mut violations: Vec<Violation> = Vec::new();
     let mut harness_errors: Vec<String> = Vec::new();
@@ -645,6 +646,7 @@ pub fn run_scenario(sc: &Scenario, opts: &RunOpts) -> RunReport {
             let (spec_e, refs, ref_digest, dim) = (specs[e], &refs_v[e], ref_digests[e], dims[e]);
             let want_trace = opts.trace_op == Some((ci, oi));
             let mut r = reference_t(spec_e, refs, op, want_trace);
+            let layout_of_op = crate::sampler::last_layout();
             if want_trace {
                 ref_trace = r.trace.take();
             }
@@ -746,6 +748,7 @@ pub fn run_scenario(sc: &Scenario, opts: &RunOpts) -> RunReport {
                     }
                     if opts.check_f64_agreement && !st.debug {
                         // SimF must be bit-exact f64 (harness self-check, not a verdict)
+                        crate::sampler::force_layout(layout_of_op);
                         let f = refs.sample_x_f64(point, ed, st);
                         // two different monomorphisations: NaN sign / payload may differ
                         if !canon_nan(&f).same(&canon_nan(&r.outcome)) {
